@@ -241,3 +241,19 @@ struct inserted_node_info {
 };
 
 } // namespace yakushima
+
+#ifdef YAKUSHIMA_VERIF
+// Verification-only pause points: a replay harness installs point_hook to stage a schedule.
+// With the guard off the macro expands to nothing.
+namespace yakushima::verif {
+inline void (*point_hook)(int) = nullptr; // NOLINT
+} // namespace yakushima::verif
+#define YAKUSHIMA_VERIF_POINT(id)                                              \
+    do {                                                                       \
+        if (::yakushima::verif::point_hook != nullptr) {                       \
+            ::yakushima::verif::point_hook(id);                                \
+        }                                                                      \
+    } while (false)
+#else
+#define YAKUSHIMA_VERIF_POINT(id)
+#endif
